@@ -19,6 +19,7 @@ ASSUMPTIONS = ["cryptographic validity of PublicKey::verify / Keypair::sign is t
                "prost encode_to_vec is deterministic and covers exactly from/data/seqno/topic when signature and key are None",
                "which ValidationError kind is reported for an invalid message is not part of the table (only valid vs invalid and the surfaced fields)"]
 G = "libp2p_gossipsub"
+CONFIGS = [{"name": "gossipsub-features", "packages": ["libp2p-gossipsub"], "features": "metrics,partial-messages"}]
 M = r"<std::vec::IntoIter as std::iter::Iterator>::next\(iter\)@Some\.0"
 SELFTEST = [
     {"mutation": "Strict arm: `verify_signature = true` deleted", "caught_by": "table/per-message validation/table"},
